@@ -194,8 +194,11 @@ def tdStepLine (s : TD) : List String → TD × String
   | ["peererr"] => tdRun s .peerErr fun _ => "ok"
   | ["peerremove"] => tdRun s .peerRemove fun _ => "ok"
   | ["loopexit", "accept"] => tdRun s .acceptExit fun _ => "ok"
-  -- a context loop ends because the thread group stopped, or (environment) because it failed
-  | ["loopexit", "bg"] => tdRun s (if s.tgClosed then .bgExit else .bgFail) fun _ => "ok"
+  -- a context loop ends because the thread group stopped, or (syncLoop, environment) because it failed
+  | ["loopexit", "peer"] => tdRun s (.bgExit false) fun _ => "ok"
+  | ["loopexit", "sync"] => tdRun s (if s.tgClosed then .bgExit true else .bgFail) fun _ => "ok"
+  | ["syncstart"] => tdRun s .syncStart fun _ => "ok"
+  | ["ingestdone"] => tdRun s .ingestDone fun _ => "ok"
   | ["envclosel"] => tdRun s .envCloseL fun _ => "ok"
   | ["recv"] => tdRun s .runRecv fun _ => "ok"
   | ["lclose"] => tdRun s .runCloseL fun _ => "ok"
